@@ -128,6 +128,15 @@ def add_outcome(dt, d):
         return ('err', type(e).__name__)
 
 
+_SUB = {}
+
+
+def SubDelta(R):
+    if R not in _SUB:
+        _SUB[R] = type('MyDelta', (R,), {})
+    return _SUB[R]
+
+
 class Laws(object):
     def __init__(self, ctx, R, W):
         self.ctx, self.R, self.W = ctx, R, W
@@ -194,6 +203,18 @@ class Laws(object):
             close = abs(dur_total(nd) - dur_total(d)) <= (2 if flt else 0) and months_total(nd) == months_total(d)
             same_abs = all(getattr(nd, k) == getattr(d, k) for k in mon_rd.ABS_FIELDS + ('leapdays',)) and nd.weekday == d.weekday
             self.law('normalized', ints and close and same_abs, case, 'normalized() = %r of %r' % (nd, d), key)
+        # an instance of a subclass with the same fields (the operators return self.__class__, so subclasses are part of
+        # the design): where the library calls the two equal, they hash equal and collapse in sets / dicts, and sums of
+        # mixed classes are equal whichever operand comes first
+        sub = try_(lambda: SubDelta(R)(**kw))
+        if sub[0] == 'ok':
+            sd = sub[1]
+            eq = (sd == d) and (d == sd)
+            ok = (not eq) or (hash(sd) == hash(d) and len({sd, d}) == 1 and {d: 1}.get(sd) == 1)
+            m1, m2 = try_(lambda: sd + d), try_(lambda: d + sd)
+            if ok and eq and m1[0] == 'ok' and m2[0] == 'ok' and m1[1] == m2[1]:
+                ok = hash(m1[1]) == hash(m2[1])
+            self.law('subclass-equal-hash-equal', ok and eq, case, 'subclass instance %r vs %r: == %r, hashes %r / %r' % (sd, d, eq, hash(sd), hash(d)), key)
         # a delta is a value: being added to dates (either operand order, leap years included) leaves it as it was, and a
         # used delta keeps giving the sums of a freshly built equal one
         before = (fields_of(d), hash(d), repr(d))
